@@ -175,6 +175,20 @@ class LinEval:
             return s
         if k == 'seq_new':
             return []
+        if k == 'seq_lit':
+            return [self.ev(x) for x in t[1]]
+        if k == 'ext':
+            base = list(self.ev(t[1]))
+            info = self.loops.get(t[2])
+            if info is None or 'item' not in info:
+                raise NonConst()
+            saved = dict(self.idx)
+            out = []
+            for p_ in self.indices(t[2]):
+                self.idx[t[2]] = p_
+                out.append(self._ev(info['item']))
+            self.idx = saved
+            return base + out
         if k == 'seq_rep':
             n = int(self.num(t[2]))
             x = self.ev(t[1])
@@ -414,6 +428,9 @@ def entry_state(skel_state, params, float_cells):
         elif isinstance(val, sk.Opt):
             if val.some is False:
                 state[cell] = ('none',)
+            elif isinstance(val.inner, sk.Seq) and val.inner.n is not None:
+                state[cell] = ('some', [Form({'b:%s:%d' % (cell, j): 1.0}) for j in range(val.inner.n)])
+                atoms += ['b:%s:%d' % (cell, j) for j in range(val.inner.n)]
             else:
                 state[cell] = ('some', Form({'c:%s' % cell: 1.0}))
                 atoms.append('c:%s' % cell)
@@ -442,11 +459,11 @@ def symbolic_step(F, v, m, skel_state, params, float_cells):
             state[cell] = [Form({'b:%s:%d' % (cell, j): 1.0}) for j in range(n)]
             atoms += ['b:%s:%d' % (cell, j) for j in range(n)]
         elif isinstance(val, sk.Opt):
-            if val.some is True:
-                state[cell] = ('some', Form({'c:%s' % cell: 1.0}))
-                atoms.append('c:%s' % cell)
-            elif val.some is False:
+            if val.some is False:
                 state[cell] = ('none',)
+            elif isinstance(val.inner, sk.Seq) and val.inner.n is not None:
+                state[cell] = ('some', [Form({'b:%s:%d' % (cell, j): 1.0}) for j in range(val.inner.n)])
+                atoms += ['b:%s:%d' % (cell, j) for j in range(val.inner.n)]
             else:
                 state[cell] = ('some', Form({'c:%s' % cell: 1.0}))
                 atoms.append('c:%s' % cell)
@@ -496,6 +513,10 @@ def symbolic_step(F, v, m, skel_state, params, float_cells):
                     rows['b:%s:%d' % (cell, j)] = f
         elif isinstance(val, tuple) and val and val[0] == 'some' and isinstance(val[1], Form):
             rows['c:%s' % cell] = val[1]
+        elif isinstance(val, tuple) and val and val[0] == 'some' and isinstance(val[1], list):
+            for j, f in enumerate(val[1]):
+                if isinstance(f, Form):
+                    rows['b:%s:%d' % (cell, j)] = f
         elif isinstance(val, Form) and ('c:%s' % cell) in atoms:
             rows['c:%s' % cell] = val
     # output: last() on the new state
